@@ -32,7 +32,7 @@ for root,dirs,files in os.walk(repo):
         if m:
             kind=m.group(1); name=m.group(2)
             if kind=='lemma': name=name.split('(')[0].strip()
-            else: name=name.replace('(','').replace(')','').replace('*','')
+            else: name=name.replace('(','').replace(')','').replace('*','').replace(' @','@').strip()
             cur=name; continue
         m=re.match(r'prop\s+(.*)',t)
         if m and cur and kind in ('func','lemma'):
